@@ -166,10 +166,34 @@ func genGraph(r *sim.Rand) graphCase {
 			addCross()
 		}
 		nresp := r.Range(0, 4)
+		// the same on the response direction: one of g0's response processors
+		crossRespAt, crossRespKey := -1, ""
+		if f > 0 && r.Chance(1, 4) {
+			var cands []string
+			for _, n := range gc.Flows[0].Nodes {
+				if n.Kind == "VerifProbe" && strings.Contains(n.Key, "m") {
+					cands = append(cands, n.Key)
+				}
+			}
+			if len(cands) > 0 {
+				crossRespAt, crossRespKey = r.Intn(nresp+1), sim.Pick(r, cands)
+			}
+		}
+		addCrossResp := func() {
+			respKeys = append(respKeys, gc.Flows[0].Name+"."+crossRespKey)
+			fl.Nodes = append(fl.Nodes, sim.GNode{Key: gc.Flows[0].Name + "." + crossRespKey, Kind: "ref"},
+				sim.GNode{Key: crossRespKey, Kind: "MockProcessor"})
+		}
 		for i := 0; i < nresp; i++ {
+			if i == crossRespAt {
+				addCrossResp()
+			}
 			k := fmt.Sprintf("f%dm%d", f, i)
 			respKeys = append(respKeys, k)
 			fl.Nodes = append(fl.Nodes, sim.GNode{Key: k, Kind: "VerifProbe"})
+		}
+		if crossRespAt == nresp {
+			addCrossResp()
 		}
 		fl.Req = genDirection(r, reqKeys, nil)
 		fl.Resp = genDirection(r, respKeys, hand)
@@ -204,7 +228,7 @@ func genSteer(r *sim.Rand, gc graphCase) steer {
 				}
 			}
 			for _, other := range gc.Flows {
-				for _, e := range other.Req {
+				for _, e := range append(append([]sim.GEdge{}, other.Req...), other.Resp...) {
 					if strings.Contains(e.From, ".") && shortKey(e.From) == n.Key {
 						conds[e.Cond] = true
 					}
@@ -791,6 +815,15 @@ func judgeResponse(gc graphCase, flows map[string]sim.GFlow, s steer, respEv []e
 	for name, evs := range byFlow {
 		fl := flows[name]
 		got := keysOf(evs)
+		for _, e := range evs {
+			if strings.Contains(e.Key, ".") {
+				v.Count("executions_of_another_flows_processor_beside_a_local_namesake", 1)
+				// the other flow's probe reports the steered condition; a local namesake would not
+				if answeredBy == "" && e.Cond != s.Out[e.Key] {
+					v.Violate("C04/wrong-processor-instance/response", fmt.Sprintf("node %s of flow %s reported %q, the processor it names was steered to %q", e.Key, name, e.Cond, s.Out[e.Key]), rp)
+				}
+			}
+		}
 		start := rootOf(fl.Resp)
 		if name == answerFlow {
 			// hand-over: the target of the answering processor's response connection
